@@ -664,4 +664,129 @@ theorem dot_near (a b a0 b0 : Vec3 ℝ) (δ : ℝ) (hδ : 0 ≤ δ) (ha : Vec3.N
   rw [abs_le] at hx hy hz ⊢
   constructor <;> linarith [hx.1, hx.2, hy.1, hy.2, hz.1, hz.2]
 
+/-! ### pass 10: helpers for the in-band Euler bound (first column, 2×2 block) -/
+/-- first column of `R(X)` for a unit quaternion: `R00² + R10² = 1 − t2²` -/
+theorem euler_first_column (p : Quat ℝ) (h : p.normSq = 1) :
+    ((SO3matrix p).r0.x) ^ 2 + ((SO3matrix p).r1.x) ^ 2 = 1 - (2 * (p.w * p.y - p.z * p.x)) ^ 2 := by
+  have h' : p.x * p.x + p.y * p.y + p.z * p.z + p.w * p.w = 1 := h
+  unfold SO3matrix; lie_unfold
+  linear_combination (4 * (p.y * p.y + p.z * p.z)) * h'
+
+theorem abs_le_of_sq_add_sq (a b d : ℝ) (hd : 0 ≤ d) (h : a ^ 2 + b ^ 2 = d ^ 2) : |a| ≤ d ∧ |b| ≤ d := by
+  constructor <;> (rw [abs_le]; constructor <;> nlinarith [sq_nonneg a, sq_nonneg b])
+
+theorem abs_mul_sub_le (c d a : ℝ) (hc : |c| ≤ 1) (hd : 0 ≤ d) (ha : |a| ≤ d) : |c * d - a| ≤ 2 * d := by
+  have h1 : |c * d| ≤ d := by rw [abs_mul, abs_of_nonneg hd]; exact mul_le_of_le_one_left hd hc
+  calc |c * d - a| ≤ |c * d| + |a| := abs_sub _ _
+    _ ≤ 2 * d := by linarith
+
+/-- **inside the gimbal band: the first column and the third row of the reconstructed matrix** (five of the nine entries) are within
+`2·cos(pitch) = 2·√(1 − t2²) ≤ 2·√(2·eps)` of those of `R(X)`, for every unit `X`, every `0 ≤ eps`; the (2,0) entry is exact -/
+
+theorem band_bm (p q E : ℝ) (hp : |p| ≤ 1) (hq : |q| ≤ E) : |p * q| ≤ E := by
+  rw [abs_mul]
+  calc |p| * |q| ≤ 1 * E := mul_le_mul hp hq (abs_nonneg _) (by norm_num)
+    _ = E := one_mul _
+
+theorem band_cs2 (p q r s E : ℝ) (h1 : p * p + q * q ≤ 1) (h2 : r * r + s * s = E * E) (hE : 0 ≤ E) : |p * r + q * s| ≤ E := by
+  have k1 : (p * r + q * s) * (p * r + q * s) + (p * s - q * r) * (p * s - q * r) = (p * p + q * q) * (E * E) := by
+    rw [← h2]; ring
+  have k2 : (p * p + q * q) * (E * E) ≤ 1 * (E * E) := mul_le_mul_of_nonneg_right h1 (mul_self_nonneg E)
+  have k3 : (p * r + q * s) * (p * r + q * s) ≤ E * E := by nlinarith [mul_self_nonneg (p * s - q * r)]
+  exact abs_le.mpr ⟨by nlinarith, by nlinarith⟩
+
+theorem band_quarter (r X e : ℝ) (hr : 1 / 4 ≤ r) (h : |r * X| ≤ 12 * e) : |X| ≤ 48 * e := by
+  rw [abs_mul, abs_of_pos (by linarith : (0 : ℝ) < r)] at h
+  nlinarith [abs_nonneg X]
+
+/-- the 2×2 block, sign `+` -/
+theorem band_block_core (x y z w e C S : ℝ) (hn : x * x + y * y + z * z + w * w = 1)
+    (he0 : 0 ≤ e) (he1 : e ≤ 1 / 5) (he : e * e = 1 - 2 * (w * y - z * x))
+    (hC : C * (w * w + x * x) = w * w - x * x) (hS : S * (w * w + x * x) = 2 * w * x) :
+    |S - 2 * (x * y - w * z)| ≤ 48 * e ∧ |C * (2 * (w * y - z * x)) - 2 * (x * z + w * y)| ≤ 48 * e ∧
+    |C - (1 - 2 * (x * x + z * z))| ≤ 48 * e ∧ |-S * (2 * (w * y - z * x)) - 2 * (y * z - w * x)| ≤ 48 * e := by
+  obtain ⟨u, hu⟩ : ∃ u, y = w - u := ⟨w - y, by ring⟩
+  obtain ⟨v, hv⟩ : ∃ v, z = v - x := ⟨x + z, by ring⟩
+  subst hu hv
+  have huv : u * u + v * v = e * e := by linear_combination hn - he
+  have hG : 2 * (w * w + x * x) - 1 - 2 * (w * u + x * v) + e * e = 0 := by linear_combination he
+  have hρ1 : w * w + x * x ≤ 1 := by linarith only [mul_self_nonneg (w - u), mul_self_nonneg (v - x), hn]
+  have hρ0 : 0 ≤ w * w + x * x := add_nonneg (mul_self_nonneg _) (mul_self_nonneg _)
+  have ha : |w * u + x * v| ≤ e := band_cs2 w x u v e hρ1 huv he0
+  have hb : |x * u + w * v| ≤ e := band_cs2 x w u v e (by linarith) huv he0
+  have hc : |x * v - w * u| ≤ e := by
+    have := band_cs2 x (-w) v u e (by linarith) (by linarith) he0
+    rwa [show x * v + -w * u = x * v - w * u by ring] at this
+  have hu' : |u| ≤ e := by
+    have := band_cs2 1 0 u v e (by norm_num) huv he0
+    rwa [show (1 : ℝ) * u + 0 * v = u by ring] at this
+  have hv' : |v| ≤ e := by
+    have := band_cs2 0 1 u v e (by norm_num) huv he0
+    rwa [show (0 : ℝ) * u + 1 * v = v by ring] at this
+  have hee : e * e ≤ e / 5 := by linarith only [mul_nonneg he0 (sub_nonneg.mpr he1)]
+  have hρq : 1 / 4 ≤ w * w + x * x := by
+    obtain ⟨l, _⟩ := abs_le.mp ha
+    linarith only [hG, l, hee, he1]
+  have h2wx : |2 * w * x| ≤ 1 := by
+    rw [abs_le]; constructor <;> linarith only [mul_self_nonneg (w - x), mul_self_nonneg (w + x), hρ1]
+  have hwx2 : |w * w - x * x| ≤ 1 := by
+    rw [abs_le]; constructor <;> linarith only [mul_self_nonneg w, mul_self_nonneg x, hρ1]
+  have hρa : |w * w + x * x| ≤ 1 := by rw [abs_of_nonneg hρ0]; exact hρ1
+  have hxx : |x * x| ≤ 1 := by
+    rw [abs_of_nonneg (mul_self_nonneg x)]; linarith only [mul_self_nonneg w, hρ1]
+  have hx1 : |x| ≤ 1 := by
+    rw [abs_le]; constructor <;> nlinarith [mul_self_nonneg w, mul_self_nonneg (x - 1), mul_self_nonneg (x + 1)]
+  have hee' : |e * e| ≤ e / 5 := by rw [abs_of_nonneg (mul_self_nonneg e)]; exact hee
+  have hxv : |x * v| ≤ e := band_bm _ _ _ hx1 hv'
+  have hvv : |v * v| ≤ e / 5 := by
+    rw [abs_of_nonneg (mul_self_nonneg v)]; linarith only [mul_self_nonneg u, huv, hee]
+  have huv' : |u * v| ≤ e / 5 := by
+    rw [abs_le]; constructor <;> linarith only [mul_self_nonneg (u - v), mul_self_nonneg (u + v), huv, hee, he0]
+  obtain ⟨a1, a2⟩ := abs_le.mp (band_bm _ _ _ h2wx ha)
+  obtain ⟨b1, b2⟩ := abs_le.mp (band_bm _ _ _ h2wx hee')
+  obtain ⟨c1, c2⟩ := abs_le.mp (band_bm _ _ _ hρa hb)
+  obtain ⟨d1, d2⟩ := abs_le.mp (band_bm _ _ _ hwx2 ha)
+  obtain ⟨f1, f2⟩ := abs_le.mp (band_bm _ _ _ hρa hc)
+  obtain ⟨g1, g2⟩ := abs_le.mp (band_bm _ _ _ hxx ha)
+  obtain ⟨i1, i2⟩ := abs_le.mp (band_bm _ _ _ hxx hee')
+  obtain ⟨j1, j2⟩ := abs_le.mp (band_bm _ _ _ hρa hxv)
+  obtain ⟨k1, k2⟩ := abs_le.mp (band_bm _ _ _ hρa hvv)
+  obtain ⟨l1, l2⟩ := abs_le.mp (band_bm _ _ _ hρa huv')
+  refine ⟨band_quarter _ _ _ hρq ?_, band_quarter _ _ _ hρq ?_, band_quarter _ _ _ hρq ?_, band_quarter _ _ _ hρq ?_⟩
+  · have e1 : (w * w + x * x) * (S - 2 * (x * (w - u) - w * (v - x))) =
+        -(2 * w * x * (w * u + x * v) * 2 - 2 * w * x * (e * e) - 2 * ((w * w + x * x) * (x * u + w * v))) := by
+      linear_combination hS - 2 * w * x * hG
+    rw [e1, abs_le]; constructor <;> linarith only [a1, a2, b1, b2, c1, c2, he0]
+  · have e1 : (w * w + x * x) * (C * (2 * (w * (w - u) - (v - x) * x)) - 2 * (x * (v - x) + w * (w - u))) =
+        -(2 * ((w * w - x * x) * (w * u + x * v)) + 2 * ((w * w + x * x) * (x * v - w * u))) := by
+      linear_combination (2 * (w * (w - u) - (v - x) * x)) * hC
+    rw [e1, abs_le]; constructor <;> linarith only [d1, d2, f1, f2, he0]
+  · have e1 : (w * w + x * x) * (C - (1 - 2 * (x * x + (v - x) * (v - x)))) =
+        -(-(4 * (x * x * (w * u + x * v))) + 2 * (x * x * (e * e)) + 4 * ((w * w + x * x) * (x * v)) - 2 * ((w * w + x * x) * (v * v))) := by
+      linear_combination hC + 2 * x * x * hG
+    rw [e1, abs_le]; constructor <;> linarith only [g1, g2, i1, i2, j1, j2, k1, k2, he0]
+  · have e1 : (w * w + x * x) * (-S * (2 * (w * (w - u) - (v - x) * x)) - 2 * ((w - u) * (v - x) - w * x)) =
+        -(-(2 * (2 * w * x * (w * u + x * v))) + 2 * ((w * w + x * x) * (x * u + w * v)) - 2 * ((w * w + x * x) * (u * v))) := by
+      linear_combination (-(2 * (w * (w - u) - (v - x) * x))) * hS
+    rw [e1, abs_le]; constructor <;> linarith only [a1, a2, c1, c2, l1, l2, he0]
+theorem cos_sin_two_arg (w x : ℝ) :
+    Real.cos (2 * Complex.arg ⟨w, x⟩) * (w * w + x * x) = w * w - x * x ∧
+    Real.sin (2 * Complex.arg ⟨w, x⟩) * (w * w + x * x) = 2 * w * x := by
+  by_cases hz : (⟨w, x⟩ : ℂ) = 0
+  · have hw : w = 0 := by have := congrArg Complex.re hz; simpa using this
+    have hx : x = 0 := by have := congrArg Complex.im hz; simpa using this
+    subst hw hx; simp
+  · have hN0 : 0 < ‖(⟨w, x⟩ : ℂ)‖ := norm_pos_iff.mpr hz
+    have hN : ‖(⟨w, x⟩ : ℂ)‖ * ‖(⟨w, x⟩ : ℂ)‖ = w * w + x * x := by
+      rw [← pow_two, Complex.sq_norm, Complex.normSq_mk]
+    have hc : Real.cos (Complex.arg ⟨w, x⟩) = w / ‖(⟨w, x⟩ : ℂ)‖ := Complex.cos_arg hz
+    have hs : Real.sin (Complex.arg ⟨w, x⟩) = x / ‖(⟨w, x⟩ : ℂ)‖ := Complex.sin_arg _
+    rw [Real.cos_two_mul, Real.sin_two_mul, hc, hs, ← hN]
+    generalize ‖(⟨w, x⟩ : ℂ)‖ = N at *
+    have hNne : N ≠ 0 := ne_of_gt hN0
+    constructor
+    · have : (2 * (w / N) ^ 2 - 1) * (N * N) = 2 * (w * w) - N * N := by field_simp
+      rw [this]; linarith
+    · field_simp
+
 end PP
